@@ -176,12 +176,13 @@ class World:
             p = self.disk.materialize(deck.image_name)
             deck.prs = pptx.Presentation(p)
             os.unlink(p)  # the source file may disappear after open: nothing is read lazily
-        elif form == "dir":
+        elif form in ("dir", "dirlink"):
             self.disk.put(deck.image_name, data)
-            d = self.disk.materialize_dir(deck.image_name)
+            d = self.disk.materialize_dir(deck.image_name, link=(form == "dirlink"))
             deck.prs = pptx.Presentation(d)
             import shutil
             shutil.rmtree(d, ignore_errors=True)
+            shutil.rmtree(d + ".linked", ignore_errors=True)
         else:
             src = SimSource(data, pos=pos, counters=self.faults)
             deck.prs = pptx.Presentation(src)
